@@ -292,9 +292,15 @@ def kpm_calls(rng, p):
         return []
     atol = 1e-6
     caught = []
+    opts = dict(atol=atol, max_moments=20000)
+    # hybrid KPM: some exactly known eigenvectors of the implicit part are treated exactly
+    naux = rng.choice([0, 1, 1, 2]) if d - nexp >= 2 else rng.choice([0, 1])
+    naux = min(naux, d - nexp - 1) if rng.random() < 0.7 else min(naux, d - nexp)
+    if naux:
+        opts["auxiliary_vectors"] = np.ascontiguousarray(Q[:, nexp:nexp + naux])
     with warnings.catch_warnings(record=True) as w:
         warnings.simplefilter("always")
-        solve = solve_sylvester_KPM(sparse.csr_array(h0), vecs, solver_options=dict(atol=atol, max_moments=20000))
+        solve = solve_sylvester_KPM(sparse.csr_array(h0), vecs, solver_options=opts)
         b = rng.randrange(len(vecs))
         sz = vecs[b].shape[1]
         Y = np.array([[float(rng.randint(-2, 2)) for _ in range(d)] for _ in range(sz)])
@@ -308,7 +314,7 @@ def kpm_calls(rng, p):
     return [dict(EMPTY, kind="right", E=energies_res(E, p), Y=red_exact_any(Y, p),
                  V=red_snapped(V, p, 2 ** 10, 200 * atol), h0=red_snapped(h0, p, 2 ** 12, 1e-12),
                  R=red_exact_any(Rexp, p), L=red_exact_any(Rexp, p),
-                 what=f"kpm block={b} lam={list(lam)} nexp={nexp} atol={atol}")]
+                 what=f"kpm block={b} lam={list(lam)} nexp={nexp} naux={naux} atol={atol}")]
 
 
 def second_quant_session(rng, sid, p):
